@@ -273,6 +273,16 @@ def rule_effect(prog, rep, fns, R="C14.effect", minimum=100):
                 f = ast.unparse(node.func)
                 if f.startswith(EFFECT_CALLS) or f in ("open", "input"):
                     bad.append((node.lineno, f"call to {f}"))
+        # memoisation is process-global hidden state: a cached function that builds arrays stores, when first called
+        # under jit, that trace's tracers and hands them to every later caller
+        for dec in getattr(fn, "decorator_list", []):
+            d = ast.unparse(dec).replace(" ", "")
+            if d.split("(")[0] in ("lru_cache", "functools.lru_cache", "cache", "functools.cache", "cached_property",
+                                   "functools.cached_property"):
+                makes_arrays = any(isinstance(n2, ast.Call) and ast.unparse(n2.func).startswith(
+                    ("jnp.", "jax.", "jr.", "lax.", "eqx.")) for n2 in ast.walk(fn))
+                if makes_arrays:
+                    bad.append((fn.lineno, f"@{d.split('(')[0]} on a function that builds jax arrays"))
         if bad:
             for line, what in bad:
                 rep.violated(R, f"{m.relpath}:{line}", f"{qual}:{what}", f"{what} inside a method that must be pure")
